@@ -33,7 +33,8 @@ ASSUMPTIONS = [
     "<= |ref|+1 over the reference's tokens plus one foreign token) wherever that is affordable",
     "dyadic costs: float32 cost sums are exact, so no tie exists only in floating point",
     "padding / ignore_index never equals a reference token (generator guarantees it)",
-    "loss compared in float64 with tolerance 2e-6 + 1e-5*|expected|; 'mean' is pinned on uniform batches "
+    "loss compared in float64 within 1e-6*S + 1e-5*|expected| (S = max(1, largest |logit| of the call): float32 "
+    "log-sum-exp error scales with the logits); 'mean' is pinned on uniform batches "
     "and on ragged batches must equal one of the listed sensible averagings",
     "USE_JIT off (library runs as plain Python)",
 ]
@@ -358,8 +359,12 @@ def _nll(logit_row):
     return [lse - x for x in logit_row]
 
 
-def _near(a, b):
-    return a == a and abs(a - b) <= 2e-6 + 1e-5 * abs(b)
+def _tol(b, scale):
+    return 1e-6 * scale + 1e-5 * abs(b)
+
+
+def _near(a, b, scale):
+    return a == a and abs(a - b) <= _tol(b, scale)
 
 
 def _exec_loss(case, mon):
@@ -383,6 +388,7 @@ def _exec_loss(case, mon):
     if not judged:
         return
     lg64 = (logits if case["batch_first"] else logits.transpose(0, 1)).double().tolist()  # [N][H][V]
+    scale = max(1.0, float(logits.abs().max())) if logits.numel() else 1.0
     # per pair: the expected per-prefix losses (None = prefix past the end), in float64
     exp = []  # exp[n][k]
     excluded = []  # pairs with an empty hypothesis: not judged; both conventions admitted in reductions
@@ -423,9 +429,9 @@ def _exec_loss(case, mon):
             row, tab = exp[n]
             for k in range(H):
                 want = 0.0 if row[k] is None else row[k]
-                ok = _near(g[n][k], want) and (want != 0.0 or g[n][k] == 0.0)
+                ok = _near(g[n][k], want, scale) and (want != 0.0 or g[n][k] == 0.0)
                 if ok:
-                    mon.dev("loss(fraction of tolerance)", abs(g[n][k] - want) / (2e-6 + 1e-5 * abs(want)), 1.0)
+                    mon.dev("loss(fraction of tolerance)", abs(g[n][k] - want) / _tol(want, scale), 1.0)
                 mon.check(ok, "loss-none-value", observed=g[n][k], expected=want, n=n, k=k,
                           past_end=row[k] is None, targets=sorted(tab[k]) if row[k] is not None else None)
     else:
@@ -463,10 +469,10 @@ def _exec_loss(case, mon):
             cands["macro-over-batch-of-mean-over-valid-prefixes/%d" % vi] = (
                 sum(s / max(1, c) for s, c in zip(sums, valid)) / N)
             cands["mean-over-all-entries/%d" % vi] = total / (N * H)
-        hit = [k for k, v in cands.items() if _near(g, v)]
+        hit = [k for k, v in cands.items() if _near(g, v, scale)]
         if hit:
             v = cands[hit[0]]
-            mon.dev("loss(fraction of tolerance)", abs(g - v) / (2e-6 + 1e-5 * abs(v)), 1.0)
+            mon.dev("loss(fraction of tolerance)", abs(g - v) / _tol(v, scale), 1.0)
         if red == "sum":
             mon.check(bool(hit), "loss-sum-value", observed=g, admissible=cands)
         elif uniform:
